@@ -19,6 +19,7 @@ THEOREMS = [(M, "NQ.C03." + n) for n in [
     "stdLike_xMachine", "exec_is_instance", "assemble_simulates_exec", "assemble_simulates_exec_fault",
     "nonvacuous_exec",
     "source_operand_text_roundtrip", "replaceConstants_preserves_reserved", "reserved_not_scratch",
+    "reserved_preserved", "F42_reserved_witness",
 ]]
 TRANSLATORS = ["instr_table", "asm_pass_tables"]
 LEVEL_TEXT = (
@@ -35,7 +36,11 @@ LEVEL_TEXT = (
     "body when no value contains `$` and no use is directly followed by `$` (both necessary, witnesses proved). "
     "Tie: exception table, scratch-register count, branch set and instruction shapes regenerated from the live "
     "modules with kernel-decided side conditions; syntactic differential test of the compiled model against "
-    "`assemble_subroutine` (equal instruction lists or same error class) and of the text front end.")
+    "`assemble_subroutine` (equal instruction lists or same error class, with random `reserved_registers` sets) "
+    "and of the text front end. All theorems carry the reserved set: reserved registers are never scratch and "
+    "keep their values. A model-free STATIC oracle checks on the real output of every accepted program (any "
+    "vanilla instruction, nothing executed) the block structure, that every scratch register is named nowhere "
+    "in the source (top level, entry index, slice bounds) nor reserved, operand patching and label targets.")
 LEVEL_NOTE = (
     "Trusted: Lean kernel; translator + harness; the hand-written role table of the 21 classical/array/"
     "allocation instructions (which operand positions are read / written / immediate / target), validated "
@@ -116,6 +121,27 @@ MUTATION_CORPUS = [
 ]
 
 
+# the stop register of a slice is named by the program (seeded change C03_4: `regs(start) or regs(stop)`)
+MUTATION_CORPUS.append(
+    [{"m": "array", "a": [], "o": [{"i": 4}, {"a": 0}]},
+     {"m": "wait_all", "a": [], "o": [{"s": [0, {"r": [0, 1]}, {"r": [0, 0]}]}]}])
+MUTATION_CORPUS.append(
+    [{"m": "set", "a": [], "o": [{"r": [0, 0]}, {"i": 1}]},
+     {"m": "wait_any", "a": [], "o": [{"s": [1, {"r": [0, 0]}, {"r": [0, 1]}]}]},
+     {"m": "store", "a": [], "o": [{"i": 7}, {"e": [1, {"i": 0}]}]}])
+
+# (program, reserved registers): `assemble_subroutine(reserved_registers=…)`, the fix of F42
+RESERVED_CORPUS = [
+    ([{"m": "store", "a": [], "o": [{"i": 7}, {"e": [0, {"r": [0, 1]}]}]}], [[0, 0]]),
+    ([{"m": "array", "a": [3], "o": [{"a": 0}]},
+      {"m": "store", "a": [], "o": [{"i": 7}, {"e": [0, {"i": 1}]}]},
+      {"m": "load", "a": [], "o": [{"r": [0, 5]}, {"e": [0, {"i": 1}]}]},
+      {"m": "ret_reg", "a": [], "o": [{"r": [0, 5]}]}], [[0, 0], [0, 1], [0, 2], [1, 3]]),
+    # all 16 R registers reserved: a literal cannot be materialised
+    ([{"m": "add", "a": [], "o": [{"r": [1, 0]}, {"r": [1, 0]}, {"i": 1}]}], [[0, i] for i in range(16)]),
+]
+
+
 def _key(p):
     return json.dumps(p, sort_keys=True)
 
@@ -135,25 +161,61 @@ def run(ctx):
 
     # ------------------------------------------------ stream A: syntactic, assemble_subroutine vs model
     progs = [copy.deepcopy(p) for p in MUTATION_CORPUS + CORPUS]
-    progs += [H.gen_std_program(rng) for _ in range(n_std)]
-    progs += [H.gen_wild_program(rng) for _ in range(n_wild)]
+    resv = [[] for _ in progs]
+    for p, rv in RESERVED_CORPUS:
+        progs.append(copy.deepcopy(p))
+        resv.append([tuple(r) for r in rv])
+    for gen, n in ((H.gen_std_program, n_std), (H.gen_wild_program, n_wild)):
+        for _ in range(n):
+            p = gen(rng)
+            progs.append(p)
+            resv.append(H.gen_reserved(rng, p))
+
+    def req(p, rv):
+        r = {"op": "asm.assemble", "fl": "vanilla", "p": p}
+        if rv:
+            r["reserved"] = [list(x) for x in rv]
+        return r
+
     real = []
-    for p in progs:
-        r, _ = H.real_assemble(p)
+    for p, rv in zip(progs, resv):
+        r, _ = H.real_assemble(p, rv)
         real.append(r)
-    model = H.batch(drv, [{"op": "asm.assemble", "fl": "vanilla", "p": p} for p in progs])
-    for p, r, m in zip(progs, real, model):
+    model = H.batch(drv, [req(p, rv) for p, rv in zip(progs, resv)])
+    n_static = 0
+    for p, rv, r, m in zip(progs, resv, real, model):
         res.evaluations += 1
         res.count("assemble:" + ("ok" if "ok" in r else r["err"]))
+        res.count("reserved:%s" % ("0" if not rv else "1-3" if len(rv) <= 3 else "4+"))
         if any("l" in c for c in p) or ("ok" in r and len(r["ok"]) > sum(1 for c in p if "m" in c)):
-            res.nontrivial.add(_key(p))
+            res.nontrivial.add(_key(p) + json.dumps(rv))
         if r != m:
-            small = H.shrink(p, lambda q: H.real_assemble(q)[0] != drv.call({"op": "asm.assemble", "fl": "vanilla", "p": q}))
-            res.disagreements.append({"stream": "asm.assemble", "input": small,
-                                      "model": drv.call({"op": "asm.assemble", "fl": "vanilla", "p": small}),
-                                      "code": H.real_assemble(small)[0]})
+            small = H.shrink(p, lambda q: H.real_assemble(q, rv)[0] != drv.call(req(q, rv)))
+            res.disagreements.append({"stream": "asm.assemble", "input": {"program": small, "reserved": [list(x) for x in rv]},
+                                      "model": drv.call(req(small, rv)), "code": H.real_assemble(small, rv)[0]})
             if len(res.disagreements) > 5:
                 break
+        # model-free static oracle on the real output (any vanilla instruction, nothing is executed)
+        if "ok" in r and n_static <= 5:
+            bad = H.static_oracle(p, r["ok"], rv)
+            if bad is not None:
+                n_static += 1
+
+                def fails(q, rv=rv):
+                    rr = H.real_assemble(q, rv)[0]
+                    return "ok" in rr and H.static_oracle(q, rr["ok"], rv) is not None
+
+                small = H.shrink(p, fails)
+                rv_small = list(rv)
+                for x in list(rv_small):
+                    trial = [y for y in rv_small if y != x]
+                    rr = H.real_assemble(small, trial)[0]
+                    if "ok" in rr and H.static_oracle(small, rr["ok"], trial) is not None:
+                        rv_small = trial
+                rr = H.real_assemble(small, rv_small)[0]
+                res.failures.append({"what": bad["what"], "kf": None,
+                                     "input": {"program": small, "reserved": [list(x) for x in rv_small],
+                                               "detail": H.static_oracle(small, rr["ok"], rv_small)}})
     if len(res.samples) < 3:
         res.samples.append({"program": progs[0], "assembled": real[0]})
 
@@ -250,15 +312,20 @@ def run(ctx):
 
     # ------------------------------------------------ stream C: oracle — real assembler + real Executor
     #                                                   vs direct interpretation of the source
-    cases = [copy.deepcopy(p) for p in MUTATION_CORPUS + CORPUS] + [H.gen_std_program(rng) for _ in range(n_run)]
+    cases = [(copy.deepcopy(p), []) for p in MUTATION_CORPUS + CORPUS]
+    cases += [(copy.deepcopy(p), [tuple(r) for r in rv]) for p, rv in RESERVED_CORPUS]
+    for _ in range(n_run):
+        p = H.gen_std_program(rng)
+        cases.append((p, H.gen_reserved(rng, p)))
     run_reqs, run_src = [], []
-    for p in cases:
+    for p, rv in cases:
         res.evaluations += 1
-        bad = H.oracle(p)
+        bad = H.oracle(p, reserved=rv)
         if bad is not None:
-            small = H.shrink(p, lambda q: H.oracle(q) is not None)
+            small = H.shrink(p, lambda q: H.oracle(q, reserved=rv) is not None)
             res.failures.append({"what": bad["what"], "kf": None,
-                                 "input": {"program": small, "detail": H.oracle(small)}})
+                                 "input": {"program": small, "reserved": [list(x) for x in rv],
+                                           "detail": H.oracle(small, reserved=rv)}})
             if len([f for f in res.failures]) > 5:
                 break
             continue
